@@ -36,6 +36,20 @@ Theorem C19_slot_consistent : forall cinst cmulti roots paths,
 Proof. exact slot_consistent. Qed.
 Print Assumptions C19_slot_consistent.
 
+(* A finder keeps using the table OBJECTS it was compiled with: once the slot holds a compiled finder,
+   no later step of any thread rebinds the three attributes or changes the contents of ANY list object
+   (a compile works on fresh lists; nothing is cleared or refilled in place). *)
+Theorem C19_compiled_tables_stable : forall cinst cmulti roots paths,
+  wf cinst cmulti roots = true ->
+  forall sched1 sched2 v,
+    let st1 := run_sched cinst cmulti roots paths true true sched1 in
+    let st2 := run_sched cinst cmulti roots paths true true (sched1 ++ sched2) in
+    s_slot st1 = Compiled v ->
+    s_slot st2 = Compiled v /\ s_rv st2 = s_rv st1 /\ s_pat st2 = s_pat st1 /\ s_conv st2 = s_conv st1 /\
+    forall u, s_heap st2 u = s_heap st1 u.
+Proof. exact compiled_tables_stable. Qed.
+Print Assumptions C19_compiled_tables_stable.
+
 Theorem C19_mutual_exclusion : forall cinst cmulti roots paths,
   wf cinst cmulti roots = true ->
   forall sched i j,
